@@ -250,9 +250,7 @@ func vhState(tag string) SessionState {
 	if i := vParam("state", -1); i >= 0 {
 		return vhStates[i]
 	}
-	s := SessionState(nondetString(tag, 14))
-	vAssume(s.Validate() == nil)
-	return s
+	return SessionState(nondetOneOf(tag, "new|negotiating|authenticating|established|finishing|finished|failed"))
 }
 
 func vhAuthOf(tag string, scheme, cap int) Authentication {
